@@ -526,6 +526,8 @@ func specToGo(s string, resultName string) string {
 					sb.WriteString("__rlocks")
 				case w == "wlocked" && next == '(':
 					sb.WriteString("__wlocked")
+				case w == "cancelled" && next == '(':
+					sb.WriteString("__cancelled")
 				case w == "iterstart" && next == '(':
 					sb.WriteString("__iterstart")
 				case w == "samemap" && next == '(':
